@@ -195,7 +195,7 @@ def w_akai(pid, tier, seed, job):
         st = probe(ctx, bytes(d), "a.img", None, paths if tier != "quick" else paths[:3], case)
         # tie of the termination theorems to the code on DAMAGED input: the whole-image model (total by akai_export_total)
         # must say what the real export says - a loop in the real classes that the model's functions abstract shows up here
-        if st is not None and st[0] in ("ok", "exc") and rng3.random() < (0.06 if tier == "quick" else 0.1):
+        if st is not None and st[0] in ("ok", "exc") and rng3.random() < (0.06 if tier == "quick" else 0.03):
             compare_with_model(ctx, bytes(d), case)
     return ctx.dump()
 
@@ -346,7 +346,7 @@ def w_random(pid, tier, seed, job):
 
 
 def run(ctx):
-    F.pmap(ctx, w_akai, [ctx.seed * 19 + i for i in range(8 if ctx.quick else 48)])
+    F.pmap(ctx, w_akai, [ctx.seed * 19 + i for i in range(8 if ctx.quick else 20)])
     F.pmap(ctx, w_roland, [ctx.seed * 23 + i for i in range(8 if ctx.quick else 32)])
     F.pmap(ctx, w_random, [ctx.seed * 29 + i for i in range(4 if ctx.quick else 16)])
 
